@@ -110,26 +110,29 @@ class Engine:
         return v
 
     def _decide(self, cond):
+        h = cond.hash()
         if self.pos < _real_len(self.trail):
-            v = self.trail[self.pos][0]
+            v, _, h0 = self.trail[self.pos]
+            if h0 != h:
+                raise Inconclusive("non-deterministic re-execution (decision sequence changed)")
         else:
             r = self.check(cond)
             if r == z3.unknown:
                 raise Inconclusive("solver unknown at branch")
             if r == z3.unsat:
                 v = False
-                self.trail.append([False, True])
+                self.trail.append([False, True, h])
             else:
                 r2 = self.check(z3.Not(cond))
                 if r2 == z3.unknown:
                     raise Inconclusive("solver unknown at branch")
                 if r2 == z3.sat:
                     v = True
-                    self.trail.append([True, False])
+                    self.trail.append([True, False, h])
                     self.decisions += 1
                 else:
                     v = True
-                    self.trail.append([True, True])
+                    self.trail.append([True, True, h])
         self.pos += 1
         self.add(cond if v else z3.Not(cond))
         return v
@@ -163,7 +166,7 @@ class Engine:
             self.trail.pop()
         if not self.trail:
             return False
-        self.trail[-1] = [not self.trail[-1][0], True]
+        self.trail[-1] = [not self.trail[-1][0], True, self.trail[-1][2]]
         return True
 
     def prove(self, claim):
@@ -649,9 +652,22 @@ def concretize(x, cap=None):
         return int(x)
     t = x.t
     cap = cap or ENGINE.concretize_cap
+    # Deterministic order (re-execution must meet the same decisions): ascending feasible values.
+    if x.hi - x.lo < 16:
+        for v in range(x.lo, x.hi + 1):
+            if ENGINE.decide(t == v):
+                return v
+        raise Inconclusive("no feasible value in the interval")
     for _ in range(cap):
         m = ENGINE.model()
         v = m.eval(t, model_completion=True).as_signed_long()
+        while True:  # descend to the least feasible value
+            r = ENGINE.check(t < v)
+            if r == z3.unsat:
+                break
+            if r != z3.sat:
+                raise Inconclusive("solver unknown while concretising")
+            v = ENGINE.solver.model().eval(t, model_completion=True).as_signed_long()
         if ENGINE.decide(t == v):
             return v
     raise Inconclusive("concretisation cap exceeded")
